@@ -373,3 +373,12 @@ func parallel(n, w int, f func(i int)) {
 	close(ch)
 	wg.Wait()
 }
+
+// harnessDir is where the harness module lives (vcheck exports VERIF_HARNESS_DIR; a scratch copy of /verif
+// used for testing seeded changes has its own)
+func harnessDir() string {
+	if d := os.Getenv("VERIF_HARNESS_DIR"); d != "" {
+		return d
+	}
+	return "/verif/harness"
+}
